@@ -134,6 +134,37 @@ pub fn xinsn_of(i: &Instruction, lab: &dyn Fn(&Label) -> Option<usize>) -> XInsn
 	}
 }
 
+// ---- stack map frames with their contents (the facts library does not know the CLDC StackMap attribute) ----
+#[derive(Clone, Debug, PartialEq)]
+pub enum XVt { Top, Int, Float, Double, Long, Null, UninitThis, Object(Vec<u32>), Uninit(Option<usize>) }
+#[derive(Clone, Debug, PartialEq)]
+pub enum XFrame { Same, Same1(XVt), Chop(u8), Append(Vec<XVt>), Full(Vec<XVt>, Vec<XVt>) }
+
+fn xvt_of(v: &VerificationTypeInfo, lab: &dyn Fn(&Label) -> Option<usize>) -> XVt {
+	match v {
+		VerificationTypeInfo::Top => XVt::Top, VerificationTypeInfo::Integer => XVt::Int, VerificationTypeInfo::Float => XVt::Float,
+		VerificationTypeInfo::Double => XVt::Double, VerificationTypeInfo::Long => XVt::Long, VerificationTypeInfo::Null => XVt::Null,
+		VerificationTypeInfo::UninitializedThis => XVt::UninitThis,
+		VerificationTypeInfo::Object(c) => XVt::Object(cps(c.as_inner())),
+		VerificationTypeInfo::Uninitialized(l) => XVt::Uninit(lab(l)),
+	}
+}
+
+/// the frames duke attached, in instruction order, each with its contents (an Uninitialized offset as the index of its instruction)
+pub fn xframes_of_code(code: &Code) -> Vec<XFrame> {
+	let mut by_label: HashMap<Label, usize> = HashMap::new();
+	for (k, e) in code.instructions.iter().enumerate() { if let Some(l) = &e.label { by_label.entry(*l).or_insert(k); } }
+	if let Some(l) = &code.last_label { by_label.entry(*l).or_insert(code.instructions.len()); }
+	let lab = |l: &Label| by_label.get(l).copied();
+	code.instructions.iter().filter_map(|e| e.frame.as_ref()).map(|fr| match fr {
+		StackMapData::Same => XFrame::Same,
+		StackMapData::SameLocals1StackItem { stack } => XFrame::Same1(xvt_of(stack, &lab)),
+		StackMapData::Chop { k } => XFrame::Chop(*k),
+		StackMapData::Append { locals } => XFrame::Append(locals.iter().map(|v| xvt_of(v, &lab)).collect()),
+		StackMapData::Full { locals, stack } => XFrame::Full(locals.iter().map(|v| xvt_of(v, &lab)).collect(), stack.iter().map(|v| xvt_of(v, &lab)).collect()),
+	}).collect()
+}
+
 /// label ids are crate-private; the Debug output `Label { id: N }` is the only public view
 pub fn label_ids(dbg: &str) -> Vec<u32> {
 	let mut v = vec![];
